@@ -335,6 +335,11 @@ def gl3(prog):
     for b, x in found_alts:
         errs = []
         x = strip(x)
+        via = _found_through_helper(prog, fn, x, hashp, elemp, byhash)
+        if via is not None:
+            out.append(inst("GL", "%s:GL3:return-found" % fn.npath, verdict_of(via), fn, None,
+                            errtext(via) if via else "found (through the shared probe helper) only if hash == cur.hash && (by_hash || *found == elem)"))
+            continue
         if not (mir.is_call(x, "unwrap") and x[2][0][0] == "field" and x[2][0][2] == "ptr"):
             from_helper = any(mir.is_call(y) and (y[1].local or getattr(y[1], "res_local", False)) and y[1].name not in ("alloc",)
                               for y in [x] + list(mir.subterms(x)))
@@ -383,6 +388,104 @@ def gl3(prog):
     out.append(inst("GL", "%s:GL3:insert-entry" % fn.npath, verdict_of(errs), fn, None,
                     errtext(errs) if errs else "new entries = (alloc(elem), hash, psl)"))
     return out
+
+
+def _found_through_helper(prog, fn, x, hashp, elemp, byhash):
+    """`match self.probe(hash, |found| by_hash || *found == elem) { Found(p) => p, .. }`: the found pointer is the payload of a
+    variant that a private probe helper returns.  The helper must hand out a stored pointer only under `hash == slot.hash` and
+    a true answer of the predicate it was given, and the predicate given here must be `by_hash || *found == elem`.
+    None when x is not of that shape; otherwise the list of errors ('?' = not read)."""
+    x = strip(x)
+    if not (isinstance(x, tuple) and x and x[0] == "field" and isinstance(x[1], tuple) and x[1] and x[1][0] == "as"):
+        return None
+    call = strip(x[1][1])
+    if not (mir.is_call(call) and (call[1].local or getattr(call[1], "res_local", False))):
+        return None
+    vname = x[1][2]
+    hs = [h for h in prog.resolve(call[1]) if "{closure" not in h.npath]
+    if len(hs) != 1 or hs[0].terms.ret is None:
+        return ["?the helper %s is not read" % call[1].name]
+    h = hs[0]
+    args = [strip(a) for a in call[2]]
+    if hashp not in args:
+        return ["?the helper %s is not handed the request's hash" % h.name]
+    hi = args.index(hashp) + 1
+    clos = [(i + 1, a) for i, a in enumerate(args) if isinstance(a, tuple) and a and a[0] == "agg" and a[1] == "closure"]
+    if len(clos) != 1:
+        return ["?the helper %s is not handed one acceptance predicate" % h.name]
+    ci, clo = clos[0]
+    # the predicate: by_hash || *found == elem
+    kf = [g for g in prog.lib_fns if g.npath == clo[2]]
+    errs = []
+    caps = dict(zip(clo[5] or (), [strip(v) for v in clo[4]]))
+    ok_pred = False
+    if kf and kf[0].terms.ret is not None:
+        r = strip(kf[0].terms.ret)
+        alts_ = []
+        if r[0] == "gamma":
+            c0 = strip(r[1])
+            if c0[0] == "upvar" and caps.get(c0[1]) == byhash:
+                for lab, v in r[2]:
+                    v = strip(v)
+                    if lab == "0":
+                        if v[0] == "bin" and v[1] == "Ne" and any(t[0] == "upvar" and caps.get(t[1]) == elemp for t in (strip(v[2]), strip(v[3]))):
+                            errs.append("the acceptance predicate handed to %s accepts a stored element when it is *different* from the "
+                                        "requested one" % h.name)
+                            ok_pred = True
+                        if v[0] == "bin" and v[1] == "Eq":
+                            sides = [strip(v[2]), strip(v[3])]
+                            ups = [t for t in sides if t[0] == "upvar" and caps.get(t[1]) == elemp]
+                            prm = [t for t in sides if mir.strip_refs(t) == ("param", 2) or (t[0] == "deref" and mir.strip_refs(t[1]) == ("param", 2))]
+                            ok_pred = bool(ups) and bool(prm)
+    if not ok_pred:
+        errs.append("?the acceptance predicate handed to %s is not read as `equality_by_hash || *found == elem`" % h.name)
+    # the helper: Found(p) only under hash == slot.hash and predicate(p)
+    te = h.terms
+    found_alts = []
+
+    def collect(t, pb):
+        t0 = strip(t)
+        if isinstance(t0, tuple) and t0 and t0[0] == "phi":
+            for pb2, v in t0[2]:
+                collect(v, pb2)
+        elif isinstance(t0, tuple) and t0 and t0[0] == "gamma":
+            for _, v in t0[2]:
+                collect(v, pb)
+        elif isinstance(t0, tuple) and t0 and t0[0] == "agg" and t0[3] == vname:
+            found_alts.append((pb, t0))
+    collect(te.ret, None)
+    if not found_alts:
+        return errs + ["?%s builds no %s" % (h.name, vname)]
+    for pb, agg in found_alts:
+        pbn = int(str(pb).replace("bb", "")) if pb is not None and not isinstance(pb, int) else pb
+        if pbn is None or not agg[4]:
+            errs.append("?a %s alternative of %s is not located" % (vname, h.name))
+            continue
+        payload = strip(agg[4][0])
+        slot = None
+        for y in [payload] + list(mir.subterms(payload)):
+            if isinstance(y, tuple) and y and y[0] == "field" and y[2] == "ptr":
+                slot = strip(y[1])
+        if slot is None:
+            errs.append("the pointer %s hands out as %s is not the stored pointer of a slot: %s" % (h.name, vname, show(payload)[:50]))
+            continue
+        facts = [(strip(c), val) for c, val, _, _ in te.facts_at(pbn)]
+        hash_ok = any(val != "0" and c[0] == "bin" and c[1] == "Eq" and
+                      {repr(strip(c[2])), repr(strip(c[3]))} == {repr(("param", hi)), repr(("field", slot, "hash") + tuple(strip(c[2])[3:] if strip(c[2])[0] == "field" else strip(c[3])[3:]))}
+                      for c, val in facts)
+        if not hash_ok:
+            hash_ok = any(val != "0" and c[0] == "bin" and c[1] == "Eq" and ("param", hi) in (strip(c[2]), strip(c[3])) and
+                          any(isinstance(t_, tuple) and t_ and t_[0] == "field" and t_[2] == "hash" and strip(t_[1]) == slot for t_ in (strip(c[2]), strip(c[3])))
+                          for c, val in facts)
+        pred_ok = any(val != "0" and mir.is_call(c) and c[1].name in ("call", "call_mut", "call_once") and c[2] and
+                      mir.strip_refs(strip(c[2][0])) == ("param", ci) and any(y == payload for y in mir.subterms(("t",) + tuple(c[2][1:])))
+                      for c, val in facts)
+        if not hash_ok:
+            errs.append("%s hands out a stored pointer without `hash == slot.hash` being true on the way" % h.name)
+        if not pred_ok:
+            errs.append("%s hands out a stored pointer without the acceptance predicate having said yes to it (an unequal node "
+                        "with a colliding hash would be returned)" % h.name)
+    return errs
 
 
 def _same_key_rule(fn, label, get_name, ins_name, key_idx_get, key_idx_ins, hash_idx_get=None, hash_idx_ins=None,
